@@ -383,7 +383,168 @@ def rule_f(ctx: Ctx) -> None:
     ctx.min_instances("type_name_obligations", n, 2000)
 
 
-RULES = [rule_a, rule_b, rule_c, rule_d, rule_e, rule_f]
+def _strip_case(e: ast.AST) -> tuple[ast.AST, str]:
+    case = ""
+    while isinstance(e, ast.Call) and isinstance(e.func, ast.Attribute) and e.func.attr in ("upper", "lower") and not e.args:
+        case = case or e.func.attr
+        e = e.func.value
+    return e, case
+
+
+def rule_g(ctx: Ctx) -> None:
+    ctx.rule("C01.g", "alias tables normalise in one lookup: a str->str table that is looked up with the name of a node (<node>.name.upper() / .lower()) and whose result is wrapped "
+                      "back into a var / string literal (date parts, interval units) maps every value that is itself a key to itself — otherwise the printed alias is mapped again "
+                      "when the output is re-parsed and the text changes on the second round trip")
+    fx = facts(ctx.repo)
+    WRAP = ("exp.var", "exp.Var", "exp.Literal.string", "var")
+    sites = 0
+    tables: list[tuple[str, str, dict, object, object]] = []  # (label, case, table, module, node)
+
+    def module_table(m: Module, name: str) -> dict | None:
+        for st in m.tree.body:
+            tg = st.targets[0] if isinstance(st, ast.Assign) and len(st.targets) == 1 else st.target if isinstance(st, ast.AnnAssign) else None
+            if isinstance(tg, ast.Name) and tg.id == name and isinstance(getattr(st, "value", None), ast.Dict):
+                d = st.value
+                if any(k is None for k in d.keys):
+                    return None  # ** spread: not decided
+                out = {}
+                for k, v in zip(d.keys, d.values):
+                    if not (isinstance(k, ast.Constant) and isinstance(v, ast.Constant) and isinstance(k.value, str) and isinstance(v.value, str)):
+                        return None
+                    out[k.value] = v.value
+                return out
+        return None
+
+    for f in ctx.repo.all_funcs():
+        m = f.module
+        if not m.name.startswith(("sqlglot.dialects", "sqlglot.parsers", "sqlglot.parser", "sqlglot.generators", "sqlglot.generator")):
+            continue
+        for c in walk_no_nested(f.node):
+            if not (isinstance(c, ast.Call) and isinstance(c.func, ast.Attribute) and c.func.attr == "get" and c.args):
+                continue
+            key, case = _strip_case(c.args[0])
+            if not (case and isinstance(key, ast.Attribute) and key.attr == "name"):
+                continue
+            # the result is wrapped back into a node of the same kind: directly, or through a local
+            par = m.parent(c)
+            while isinstance(par, (ast.IfExp, ast.BoolOp)):
+                par = m.parent(par)
+            wrapped = isinstance(par, ast.Call) and (call_name(par) or "") in WRAP
+            if not wrapped and isinstance(par, ast.Assign) and len(par.targets) == 1 and isinstance(par.targets[0], ast.Name):
+                local = par.targets[0].id
+                wrapped = any(isinstance(w, ast.Call) and (call_name(w) or "") in WRAP and any(isinstance(a, ast.Name) and a.id == local for a in w.args) for w in walk_no_nested(f.node))
+            if not wrapped:
+                continue
+            sites += 1
+            recv = c.func.value
+            where = f.key
+            if isinstance(recv, ast.Attribute) and recv.attr.isupper():
+                for dn, d in sorted(fx["dialects"].items()):
+                    t_ = (d.get("str_tables") or {}).get(recv.attr)
+                    if t_:
+                        tables.append((f"dialect {dn or 'base'}.{recv.attr}", case, t_, m, c))
+            elif isinstance(recv, ast.Name):
+                t_ = module_table(m, recv.id)
+                if t_ is not None:
+                    tables.append((f"{m.name}:{recv.id}", case, t_, m, c))
+                    continue
+                # a parameter of an enclosing builder factory: the tables handed in at its call sites
+                outer = f.qualname.split(".<locals>")[0]
+                found = False
+                for g in ctx.repo.all_funcs():
+                    for call in walk_no_nested(g.node):
+                        if isinstance(call, ast.Call) and (call_name(call) or "").split(".")[-1] == outer.split(".")[-1]:
+                            for k in call.keywords:
+                                if k.arg == recv.id and isinstance(k.value, ast.Name):
+                                    t2 = module_table(g.module, k.value.id)
+                                    if t2 is not None:
+                                        tables.append((f"{g.module.name}:{k.value.id}", case, t2, g.module, call))
+                                        found = True
+                if not found:
+                    # class-body call sites (FUNCTIONS tables) are not inside functions: scan module trees
+                    for mm in ctx.repo.modules.values():
+                        for call in ast.walk(mm.tree):
+                            if isinstance(call, ast.Call) and (call_name(call) or "").split(".")[-1] == outer.split(".")[-1]:
+                                for k in call.keywords:
+                                    if k.arg == recv.id and isinstance(k.value, ast.Name):
+                                        t2 = module_table(mm, k.value.id)
+                                        if t2 is not None:
+                                            tables.append((f"{mm.name}:{k.value.id}", case, t2, mm, call))
+    seen: set[tuple[str, str]] = set()
+    n = 0
+    for label, case, t_, m, node in tables:
+        if (label, case) in seen:
+            continue
+        seen.add((label, case))
+        n += 1
+        fold = str.upper if case == "upper" else str.lower
+        chains = [(k, v, t_[fold(v)]) for k, v in t_.items() if fold(v) in t_ and t_[fold(v)] != v]
+        if not chains:
+            ctx.ok(f"{label}|idempotent ({len(t_)} entries)", None)
+            continue
+        by_mid: dict[tuple[str, str], list[str]] = {}
+        for k, v, w in chains:
+            by_mid.setdefault((v, w), []).append(k)
+        for (v, w), ks in sorted(by_mid.items()):
+            ctx.fail(m if not label.startswith("dialect ") else None, node if not label.startswith("dialect ") else None, label, f"{label}: {sorted(ks)[0]} -> {v} -> {w}",
+                     f"{label} maps {', '.join(sorted(ks))} to {v!r}, and {v!r} itself to {w!r}: the alias is printed as {v}, which the next parse maps to {w} — the text changes again "
+                     f"on the second round trip")
+    ctx.count("alias_lookup_sites", sites)
+    ctx.count("alias_tables", n)
+    ctx.min_instances("alias_lookup_sites", sites, 3)
+    ctx.min_instances("alias_tables", n, 30)
+
+
+def _version_gates(tree: ast.AST) -> list[tuple[ast.Compare, tuple, bool]]:
+    """Comparisons of `<x>.version` with a tuple literal -> (node, cut point, strictly-after flag).
+    `v < T` / `v >= T` cut at T; `v <= T` / `v > T` cut just after T (versions are padded to three components)."""
+    out = []
+    for c in ast.walk(tree):
+        if isinstance(c, ast.Compare) and len(c.ops) == 1 and isinstance(c.left, ast.Attribute) and c.left.attr == "version" and isinstance(c.comparators[0], ast.Tuple):
+            elts = c.comparators[0].elts
+            if not all(isinstance(e, ast.Constant) and isinstance(e.value, int) for e in elts):
+                continue
+            t_ = tuple(e.value for e in elts) + (0,) * (3 - len(elts))
+            op = c.ops[0]
+            if isinstance(op, (ast.Lt, ast.GtE)):
+                out.append((c, t_, False))
+            elif isinstance(op, (ast.LtE, ast.Gt)):
+                out.append((c, t_, True))
+    return out
+
+
+def rule_h(ctx: Ctx) -> None:
+    ctx.rule("C01.h", "reader and writer of a versioned dialect switch at the same version: a version gate in a dialect's parser that marks the tree for the generator "
+                      "(its branch sets an argument) cuts the version line at a point where the same dialect's generator has a gate too — with different cuts, the versions "
+                      "between them are read one way and printed the other, and the output keeps changing")
+    n = 0
+    for name, m in sorted(ctx.repo.modules.items()):
+        if not name.startswith("sqlglot.parsers."):
+            continue
+        stem = name.rsplit(".", 1)[1]
+        gates = _version_gates(m.tree)
+        if not gates:
+            continue
+        gen = ctx.repo.modules.get(f"sqlglot.generators.{stem}")
+        gen_cuts = {(t_, after) for _, t_, after in _version_gates(gen.tree)} if gen is not None else set()
+        for node, t_, after in gates:
+            st = m.enclosing_stmt(node)
+            marks = isinstance(st, ast.If) and any(isinstance(x, ast.Call) and isinstance(x.func, ast.Attribute) and x.func.attr == "set" for b in st.body + st.orelse for x in ast.walk(b))
+            if not marks:
+                continue
+            n += 1
+            cut = ("just after " if after else "") + ".".join(map(str, t_))
+            if (t_, after) in gen_cuts:
+                ctx.ok(f"{name}|{norm(node)}", {"parser_gate": norm(node), "cut": cut})
+            else:
+                others = sorted(("just after " if a else "") + ".".join(map(str, t2)) for t2, a in gen_cuts)
+                ctx.fail(m, node, name, node, f"the parser marks the tree under `{norm(node)}` (cut at {cut}) but the generator of the same dialect switches at {others or 'no version'}: "
+                                              f"for the versions between the cuts the parser and the generator of one configuration disagree")
+    ctx.count("marking_parser_gates", n)
+    ctx.min_instances("marking_parser_gates", n, 1)
+
+
+RULES = [rule_a, rule_b, rule_c, rule_d, rule_e, rule_f, rule_g, rule_h]
 EXPLANATION = (
     "Exhaustive table/shape checks over all dialect classes: (a) the set of expression classes each dialect's parser chain "
     "can construct (collected from the AST of the parser modules on its MRO) must be covered by that dialect's generator "
